@@ -7,11 +7,12 @@
 EXTENDS BTZNames
 
 (* zones a load may install: flat, one cut with glue, nested cuts of depth 2 and 3 *)
-Z_flat == {SOA, ApexNS, <<n_ns, "A", 1>>, <<n_f, "A", 1>>, <<n_bc, "TXT", 1>>}
-Z_cut == {SOA, ApexNS, <<n_d, "NS", 1>>, <<n_xd, "A", 1>>, <<n_ed, "A", 1>>, <<n_f, "NS", 1>>}
-Z_nest == {SOA, ApexNS, <<n_d, "NS", 1>>, <<n_xd, "NS", 1>>, <<n_yxd, "A", 1>>, <<n_bc, "A", 1>>}
-Z_deep == {SOA, ApexNS, <<n_d, "A", 1>>, <<n_xd, "NS", 1>>, <<n_yxd, "NS", 1>>, <<n_ed, "NS", 1>>}
-MCLoadSets == {Z_flat, Z_cut, Z_nest, Z_deep}
+Z_flat == <<SOA, ApexNS, <<n_ns, "A", 1>>, <<n_f, "A", 1>>, <<n_bc, "TXT", 1>>>>
+Z_cut == <<SOA, ApexNS, <<n_d, "NS", 1>>, <<n_xd, "A", 1>>, <<n_ed, "A", 1>>, <<n_f, "NS", 1>>>>
+Z_nest == <<SOA, ApexNS, <<n_d, "NS", 1>>, <<n_xd, "NS", 1>>, <<n_yxd, "A", 1>>, <<n_bc, "A", 1>>>>
+Z_deep == <<SOA, ApexNS, <<n_d, "A", 1>>, <<n_xd, "NS", 1>>, <<n_yxd, "NS", 1>>, <<n_ed, "NS", 1>>>>
+Z_cname == <<SOA, ApexNS, <<n_d, "NS", 1>>, <<n_xd, "A", 1>>, <<n_ed, "CNAME", 1>>, <<n_f, "NS", 1>>, <<n_f, "CNAME", 1>>>>
+MCLoadSets == {Z_flat, Z_cut, Z_nest, Z_deep, Z_cname}
 
 CONSTANT ShapeNames
 ShapeInit == /\ content = EmptyContent /\ working = EmptyContent
